@@ -319,9 +319,7 @@ func ComputeAbstract(r *http.Request, st *idp.Storage, meta *idp.SPMeta, fault *
 	// the payload the decoder parses, as Go's tokenizer resolves it (an oracle of the model of Unmarshal)
 	a.DocTree = "None"
 	if data, derr := samlxml.InflateAndDecode(a.Form[2], true, a.Form[1]); derr == nil {
-		if root, trailing, terr := idp.ResolvedTree(data); terr == nil && !root.HasContent("BaseID") && asciiCerts(root) {
-			a.DocTree = fmt.Sprintf("(Some (%s, %s))", coqgen.Bool(trailing), root.Coq())
-		}
+		a.DocTree = idp.DocTreeTerm(data)
 	}
 	if err == nil {
 		a.Dec = dec
@@ -346,27 +344,6 @@ func ComputeAbstract(r *http.Request, st *idp.Storage, meta *idp.SPMeta, fault *
 		})
 	}
 	return a
-}
-
-// asciiCerts: certificate texts are compared modulo white space; the model's notion of white space is the ASCII one
-func asciiCerts(n *idp.RNode) bool {
-	if n.Local == "X509Certificate" {
-		for _, k := range n.Kids {
-			if s, ok := k.(string); ok {
-				for i := 0; i < len(s); i++ {
-					if s[i] >= 0x80 {
-						return false
-					}
-				}
-			}
-		}
-	}
-	for _, k := range n.Kids {
-		if c, ok := k.(*idp.RNode); ok && !asciiCerts(c) {
-			return false
-		}
-	}
-	return true
 }
 
 // ---- Coq rendering ----
